@@ -502,6 +502,23 @@ Section Refine.
     - rewrite S2, S1. reflexivity.
   Qed.
 
+  Lemma cmd_groups {A} smooth c (ftoks : A -> list (tok K)) sstep pre
+        (G : group_ok smooth c ftoks sstep pre)
+        (Fn : forall a, exists v r, ftoks a = TNum v :: r) abs (args : list A) st ss rest :
+    nonempty args = true -> Inv st ss ->
+    (smooth = false \/ none_ok = true \/ p_cmd st <> None) ->
+    pre_all (sstep abs) (pre abs) ss args ->
+    exists st',
+      reaches ((TCmd c abs :: flat_map ftoks args) ++ rest) st rest st'
+      /\ Inv st' (fst (spec_args (sstep abs) ss args))
+      /\ p_cmd st' = Some c
+      /\ p_segs st' = rev (snd (spec_args (sstep abs) ss args)) ++ p_segs st.
+  Proof.
+    intros NE I Hn P. destruct args as [|a more]; [discriminate|].
+    rewrite <- app_comm_cons.
+    exact (explicit_groups _ _ _ _ _ G Fn abs a more st ss rest I Hn P).
+  Qed.
+
   Definition cmd_pre (ss : sstate) (c : command K) : Prop :=
     coinc_ok = true \/ cmd_no_coincident_arc N ss c = true.
 
@@ -512,18 +529,116 @@ Section Refine.
     exists st',
       reaches (flatten_cmd N c ++ rest) st rest st'
       /\ Inv st' (fst (spec_cmd N ss c))
-      /\ (p_cmd st' = None <-> is_close c = true)
+      /\ (p_cmd st' = None -> is_close c = true)
       /\ p_segs st' = rev (snd (spec_cmd N ss c)) ++ p_segs st.
   Proof.
     intros I W Hn P.
-    assert (Hn' : is_smooth c = true -> none_ok = true \/ p_cmd st <> None).
-    { intros S. destruct Hn as [H|[H|H]]; [left; exact H|right; exact H|congruence]. }
-    assert (Hany : none_ok = true \/ p_cmd st <> None \/ True) by (right; right; exact I0).
-    destruct c as [abs ps|abs ps|abs xs|abs ys|abs cs|abs cs|abs qs|abs ps|abs l|up].
-    - destruct (cmd_moveto abs ps st ss rest (inv_cur I) W) as (st' & R & I' & C' & S').
-      exists st'. repeat split; try assumption.
-      + rewrite C'. discriminate. + discriminate.
-    - destruct ps as [|a more]; [discriminate|].
-      cbn [flatten_cmd spec_cmd]. rewrite <- app_comm_cons.
-  Abort.
+    assert (Hs : is_smooth c = true -> true = false \/ none_ok = true \/ p_cmd st <> None).
+    { intros S. destruct Hn as [H|[H|H]]; [right; left; exact H|right; right; exact H|congruence]. }
+    assert (Hf : false = false \/ none_ok = true \/ p_cmd st <> None) by (left; reflexivity).
+    destruct c as [abs ps|abs ps|abs xs|abs ys|abs cs|abs cs|abs qs|abs ps|abs l|up];
+      cbn [flatten_cmd spec_cmd].
+    - destruct (cmd_moveto abs ps st ss rest (inv_cur _ _ I) W) as (st' & R & I' & C' & S').
+      exists st'. split; [exact R|split; [exact I'|split; [|exact S']]].
+      rewrite C'. discriminate.
+    - destruct (cmd_groups _ _ _ _ _ group_line fpt_num abs ps st ss rest W I Hf
+                  (pre_all_no_pre _ _ _ _)) as (st' & R & I' & C' & S').
+      exists st'. split; [exact R|split; [exact I'|split; [|exact S']]].
+      rewrite C'. discriminate.
+    - destruct (cmd_groups _ _ _ _ _ group_h fnum_num abs xs st ss rest W I Hf
+                  (pre_all_no_pre _ _ _ _)) as (st' & R & I' & C' & S').
+      exists st'. split; [exact R|split; [exact I'|split; [|exact S']]].
+      rewrite C'. discriminate.
+    - destruct (cmd_groups _ _ _ _ _ group_v fnum_num abs ys st ss rest W I Hf
+                  (pre_all_no_pre _ _ _ _)) as (st' & R & I' & C' & S').
+      exists st'. split; [exact R|split; [exact I'|split; [|exact S']]].
+      rewrite C'. discriminate.
+    - destruct (cmd_groups _ _ _ _ _ group_curve fcurve_num abs cs st ss rest W I Hf
+                  (pre_all_no_pre _ _ _ _)) as (st' & R & I' & C' & S').
+      exists st'. split; [exact R|split; [exact I'|split; [|exact S']]].
+      rewrite C'. discriminate.
+    - destruct (cmd_groups _ _ _ _ _ group_smooth fpair_num abs cs st ss rest W I (Hs eq_refl)
+                  (pre_all_no_pre _ _ _ _)) as (st' & R & I' & C' & S').
+      exists st'. split; [exact R|split; [exact I'|split; [|exact S']]].
+      rewrite C'. discriminate.
+    - destruct (cmd_groups _ _ _ _ _ group_quad fpair_num abs qs st ss rest W I Hf
+                  (pre_all_no_pre _ _ _ _)) as (st' & R & I' & C' & S').
+      exists st'. split; [exact R|split; [exact I'|split; [|exact S']]].
+      rewrite C'. discriminate.
+    - destruct (cmd_groups _ _ _ _ _ group_t fpt_num abs ps st ss rest W I (Hs eq_refl)
+                  (pre_all_no_pre _ _ _ _)) as (st' & R & I' & C' & S').
+      exists st'. split; [exact R|split; [exact I'|split; [|exact S']]].
+      rewrite C'. discriminate.
+    - destruct (cmd_groups _ _ _ _ _ group_arc farc_num abs l st ss rest W I Hf
+                  (args_ok_pre_all abs ss l P)) as (st' & R & I' & C' & S').
+      exists st'. split; [exact R|split; [exact I'|split; [|exact S']]].
+      rewrite C'. discriminate.
+    - destruct (step_close (p_cmd st) up st ss rest I) as (st' & E & I' & C' & S').
+      exists st'. split; [|split; [exact I'|split; [reflexivity|exact S']]].
+      apply reaches_step; [discriminate|exact E|cbn; lia].
+  Qed.
+
+  (* -------------------------------------------------------------- *)
+  (* every program                                                   *)
+
+  Definition head_not_smooth (prog : list (command K)) : bool :=
+    match prog with c :: _ => negb (is_smooth c) | [] => true end.
+
+  Lemma refine_from : forall prog st ss,
+    forallb (@cmd_wf K) prog = true -> Inv st ss ->
+    (none_ok = true \/
+     (no_smooth_after_close prog = true /\ (p_cmd st = None -> head_not_smooth prog = true))) ->
+    (coinc_ok = true \/ no_coincident_arc_from N ss prog = true) ->
+    exists st',
+      reaches (flatten N prog) st [] st'
+      /\ p_segs st' = rev (snd (spec_from N ss prog)) ++ p_segs st.
+  Proof.
+    induction prog as [|c r IH]; intros st ss W I Hn Hc.
+    - exists st. split; [apply reaches_refl|reflexivity].
+    - cbn [forallb] in W. apply andb_true_iff in W. destruct W as [Wc Wr].
+      assert (Hn1 : none_ok = true \/ p_cmd st <> None \/ is_smooth c = false).
+      { destruct Hn as [H|[_ H]]; [left; exact H|right].
+        destruct (p_cmd st); [left; discriminate|right].
+        specialize (H eq_refl). cbn in H. apply negb_true_iff in H. exact H. }
+      assert (Hc1 : cmd_pre ss c).
+      { destruct Hc as [H|H]; [left; exact H|right].
+        cbn [no_coincident_arc_from] in H. apply andb_true_iff in H. apply H. }
+      destruct (cmd_any c st ss (flatten N r) I Wc Hn1 Hc1) as (st1 & R1 & I1 & C1 & S1).
+      destruct (IH st1 _ Wr I1) as (st2 & R2 & S2).
+      + destruct Hn as [H|[H _]]; [left; exact H|right].
+        cbn [no_smooth_after_close] in H. apply andb_true_iff in H. destruct H as [H1 H2].
+        split; [exact H2|]. intros E. specialize (C1 E).
+        destruct r as [|d r']; [reflexivity|]. cbn. rewrite C1 in H1. cbn in H1. exact H1.
+      + destruct Hc as [H|H]; [left; exact H|right].
+        cbn [no_coincident_arc_from] in H. apply andb_true_iff in H. apply H.
+      + exists st2. split.
+        * cbn [flatten flat_map]. eapply reaches_trans; [exact R1|exact R2].
+        * rewrite S2, S1, spec_from_cons. cbn [snd]. rewrite rev_app_distr, app_assoc. reflexivity.
+  Qed.
+
+  Theorem refines_general pos0 prog :
+    grammatical prog = true ->
+    (none_ok = true \/ no_smooth_after_close prog = true) ->
+    (coinc_ok = true \/ no_coincident_arc N pos0 prog = true) ->
+    impl_parse N none_ok coinc_ok (flatten N prog) pos0 = Ok (spec_run N pos0 prog).
+  Proof.
+    intros G Hn Hc. unfold grammatical in G. apply andb_true_iff in G. destruct G as [G1 W].
+    destruct prog as [|c r]; [discriminate|].
+    destruct c as [abs ps| | | | | | | | |]; try discriminate. clear G1.
+    cbn [forallb] in W. apply andb_true_iff in W. destruct W as [Wc Wr].
+    unfold impl_parse, spec_run.
+    destruct (cmd_moveto abs ps (init_state pos0) (spec_init pos0) (flatten N r) eq_refl Wc)
+      as (st1 & R1 & I1 & C1 & S1).
+    destruct (refine_from r st1 _ Wr I1) as (st2 & R2 & S2).
+    - destruct Hn as [H|H]; [left; exact H|right].
+      cbn [no_smooth_after_close] in H. apply andb_true_iff in H. destruct H as [_ H].
+      split; [exact H|]. rewrite C1. discriminate.
+    - destruct Hc as [H|H]; [left; exact H|right].
+      unfold no_coincident_arc in H. cbn [no_coincident_arc_from] in H.
+      apply andb_true_iff in H. apply H.
+    - change (flatten N (MoveTo abs ps :: r)) with (flatten_cmd N (MoveTo abs ps) ++ flatten N r).
+      rewrite (reaches_done _ _ st2 (reaches_trans _ _ _ _ _ _ R1 R2)).
+      rewrite S2, S1, spec_from_cons. cbn [snd init_state p_segs].
+      rewrite app_nil_r, <- rev_app_distr, rev_involutive. reflexivity.
+  Qed.
 End Refine.
